@@ -319,6 +319,11 @@ def main(argv=None):
       'assumptions': getattr(mod, 'ASSUMPTIONS', []),
   }
   C.write_evidence(pid, ev)
+  if not violations and not os.environ.get('VERIF_KEEP_WORK'):
+    # the generated case files are reproducible from the seed: do not let them pile up (a thorough run writes gigabytes)
+    import shutil
+    for name in list(ev_engines) + [n + '_shrink' for n in ev_engines]:
+      shutil.rmtree(os.path.join(C.WORK, name), ignore_errors=True)
   for l in lines:
     print(l)
   print('%s tier=%s seed=%d theorems=%d/%d cases=%d nontrivial=%d violations=%d wall=%.1fs' % (
